@@ -57,6 +57,10 @@ var preludeAxioms = []axiomGroup{
 	{"runeAt", `(assert (forall ((s Str) (i Int)) (! (=> (and (<= 0 i) (< i (slen s))) (and (<= 1 (runeLen s i)) (<= (runeLen s i) 4) (<= (+ i (runeLen s i)) (slen s)) (<= 0 (runeAt s i)) (<= (runeAt s i) 1114111) (=> (< (sat s i) 128) (and (= (runeAt s i) (sat s i)) (= (runeLen s i) 1))) (=> (>= (sat s i) 128) (>= (runeAt s i) 128)))) :pattern ((runeAt s i)))))
 (assert (forall ((s Str) (i Int)) (! (=> (and (<= 0 i) (< i (slen s))) (and (<= 1 (runeLen s i)) (<= (runeLen s i) 4) (<= (+ i (runeLen s i)) (slen s)) (=> (< (sat s i) 128) (= (runeLen s i) 1)))) :pattern ((runeLen s i)))))
 `},
+	// decoding a rune in a suffix s[a:] looks at the same bytes, up to the same end, as
+	// decoding it in s: same rune, same width
+	{"runeAt", `(assert (forall ((s Str) (a Int) (k Int)) (! (=> (and (<= 0 a) (<= 0 k) (< (+ a k) (slen s))) (and (= (runeAt (ssub s a (slen s)) k) (runeAt s (+ a k))) (= (runeLen (ssub s a (slen s)) k) (runeLen s (+ a k))))) :pattern ((runeAt (ssub s a (slen s)) k)) :pattern ((runeLen (ssub s a (slen s)) k)))))
+`},
 	{"slen", `(assert (forall ((s Str)) (! (and (>= (slen s) 0) (=> (= (slen s) 0) (= s str-empty))) :pattern ((slen s)))))
 `},
 }
